@@ -836,10 +836,13 @@ impl<F: Read + Write + Seek> Package<F> {
         if self.comp().exists(&stream_name) {
             self.comp_mut().remove_stream(&stream_name)?;
         }
-        self.delete_rows(
-            Delete::from(VALIDATION_TABLE_NAME)
-                .with(Expr::col("Table").eq(Expr::string(table_name))),
-        )?;
+        // (A package read from a file might not have a _Validation table.)
+        if self.tables.contains_key(VALIDATION_TABLE_NAME) {
+            self.delete_rows(
+                Delete::from(VALIDATION_TABLE_NAME)
+                    .with(Expr::col("Table").eq(Expr::string(table_name))),
+            )?;
+        }
         self.delete_rows(
             Delete::from(COLUMNS_TABLE_NAME)
                 .with(Expr::col("Table").eq(Expr::string(table_name))),
